@@ -12,58 +12,55 @@ COMMON_NOTE = ("Trusted base: Coq 8.16.1 kernel (coqc full .vo build; vm_compute
 
 # id -> (technique, level text, design ref, extra note)
 CHECKS = {
- "C01": ("Coq proof (geometry, index-builder, ravel/unravel theorems) + correspondence of the extracted model with the implementation",
-         "Theorems: the codes built by RaggedShape.__init__ are the exclusive-prefix-sum geometry of the lengths for every length vector; the index builder "
-         "equals the concatenation of the rows' progressions; flat/ragged round trips. Tie: differential run of every observer of the property (len, size, shape, "
-         "lengths, iter, tolist, ravel, astype, to/from numpy, save/load, RaggedShape.starts/ends/lengths/size, ravel/unravel_multi_index) against the extracted model.",
-         "4.1", ""),
- "C02": ("Coq proof of getitem_correct over the whole index grammar + translator-regenerated slice kernel tied by a decision-procedure lemma + correspondence",
-         "Theorem getitem_correct: for every well-formed representation and every index of the grammar, the model returns what the selectors give on the plain list of "
-         "rows, refusals in both directions. The column-slice length kernel is re-translated from raggedshape.py on every run and proved equal to the hand kernel.",
-         "4.2", ""),
- "C03": ("Coq proof of setitem_correct (refinement to list-of-rows assignment) + translator tie + correspondence",
-         "Theorem setitem_correct: the addressed cells receive the values (scalar / flat / column / ragged), everything else, row count and lengths unchanged; mismatching "
-         "ragged values refused. XOR-broadcast lemma raw_broadcast_correct for the column case.", "4.3", ""),
+ "C01": ("Coq proof (geometry, observers, flat accept/reject, numpy round trip, ravel/unravel bijection) + correspondence of the extracted model with the implementation",
+         "Theorems (Props/C01.v): the codes built by RaggedShape.__init__ are the exclusive-prefix-sum geometry for every length vector; every observer of a built array returns the rows; "
+         "a flat buffer is accepted iff its size matches and then splits into the segments; to/from numpy; legacy offsets; flat<->(row,col) maps are mutually inverse in row-major order. "
+         "Correspondence only: astype, dtype preservation, save/load through a real file.", "4.1, 10.3", ""),
+ "C02": ("Coq proof of getitem_correct over the whole index grammar on every well-formed representation + five kernels re-translated from the source and tied by decision-procedure lemmas + correspondence",
+         "getitem_correct: the model returns what the selectors give on the plain list of rows, refusals in both directions; resolve_cells: no cell outside the addressed rows/columns. "
+         "Kernels of the column-slice family are re-translated from raggedshape.py on every run and proved equal to the hand model. Also run: lazily derived arrays, the same index twice on one object.", "4.2, 10.3", ""),
+ "C03": ("Coq proof of setitem_correct (refinement to list-of-rows assignment) + translator tie + correspondence incl. a dtype-wide family",
+         "setitem_correct: the addressed cells receive the values (scalar / flat / column / ragged), everything else, row count and lengths unchanged; mismatching ragged values refused; "
+         "raw_broadcast_correct for the column case. Correspondence only: value dtypes (floats with 1e16/inf), per-cell values through a ragged mask, assignment into derived arrays.", "4.3, 10.3", ""),
  "C04": ("Coq proof of ufunc2_correct (parametric in the element operation) + correspondence over dtype pairs with numpy as the element-level oracle",
-         "Theorem ufunc2_correct: ufunc(ra, scalar / (n,1) column / equal-shape ragged) is the row-wise map2 for any element operation; mismatching shapes refused. "
-         "Result dtype and element operation are numpy's own applied to row i alone (the property's wording).", "4.4", ""),
- "C05": ("Coq proof of reduce_correct (law-free folds), argmax_correct/argmin_correct + correspondence",
-         "Theorem reduce_correct: reduceat + identity patch-up equals the per-row left fold with the identity on empty rows for every placement of empty rows; "
-         "argmax/argmin pipeline returns the first position of each non-empty row's extremum.", "4.5", ""),
- "C06": ("Coq proof of chain_correct (selection chains of any depth on lazy views) and indistinguishable_read + correspondence on programs",
-         "Theorems derived_denote / chain_correct / indistinguishable_read: every lazily derived representation is well formed and denotes the spec's selection; chains of any "
-         "depth; two representations with equal rows are indistinguishable by any index. Programs over views are run against freshly built equal arrays.", "4.6", ""),
- "C07": ("Coq proofs cumsum_correct, accumulate_correct, diff_correct, sort_correct, unique_correct + correspondence",
-         "Each scan/reordering equals the per-row numpy definition for every placement of empty rows; cumsum/accumulate over abstract groups (integer wrap-around inside "
-         "the theorem); float accumulate through the padded-matrix path compared bit-exactly with numpy per row.", "4.7", ""),
- "C08": ("Coq proofs concat0_correct, subset_correct, ragged_slice_correct, nonzero_correct, padded_correct + correspondence",
-         "Structural functions are polymorphic list functions; theorems state row-structure preservation. where / axis-1 concatenation / like-functions are decided by "
-         "correspondence against the spec functions (stated, see evidence stated_not_proved).", "4.8", ""),
- "C09": ("Coq proofs colsum_correct, col_counts_correct + correspondence incl. integers beyond 2^53",
-         "Column sums count every row that reaches the column once; col_counts is the suffix count of lengths; mean and get_column_values by correspondence against the "
-         "spec (corollaries).", "4.9", ""),
- "C10": ("Coq proof of run_sim / C10_partial (heap-with-lazy-views machine refines value semantics on safe histories) + refuting witness + correspondence on history pairs",
-         "The full statement is false of the faithful model (C10_refuted_witness, reproduced on the real code: known finding K1); C10_partial proves it for histories in which no "
-         "write hits a buffer another array still names. History pairs with/without an inserted read are run on the implementation.", "4.10", ""),
- "C11": ("Coq proof table_is_dictionary (refinement of the bucket table to an association list over every history) + correspondence on histories",
-         "Invariant established by the constructor for every duplicate-free key set and modulus, preserved by assignment; lookups equal the dictionary's; absent keys refused.", "4.11", ""),
- "C12": ("Coq proof count_correct / count_history / split-and-order invariance + correspondence on batch histories",
-         "After any sequence of batches every key reports initial + occurrences in the concatenation; non-keys contribute nothing.", "4.12", ""),
- "C13": ("Coq proof unpack_pack, get_correct, sliding_window_correct over N/Z with explicit mod 2^64 + correspondence",
-         "Registers as base-2^b digit strings; windows across register boundaries via the two-register shift lemma; any length.", "4.13", ""),
- "C14": ("Coq proof to_array_from_array, from_array_canonical, decode_from_array_R (float PER) + correspondence incl. NaN/-0.0",
-         "The code's decoder inverts its encoder for every non-empty array; boundaries canonical; no equal neighbours.", "4.14", ""),
- "C15": ("Coq proof get_slice_correct (every slice, every bound), get_position_correct, start_to_end_decode, step_subset_pos/neg + correspondence",
-         "Run-length slicing decodes to Python's dense[a:b:c] for all bounds and steps; integer reads; mask / list / window indexing by correspondence.", "4.15", ""),
- "C16": ("Coq proof apply_binary_correct (arbitrary unrelated boundaries), rl_map_correct, rl_sum_correct, rl_concat_correct + correspondence",
-         "Merged-boundary binary ufunc decodes to map2 of the dense arrays and has no equal neighbours.", "4.16", ""),
- "C17": ("Coq proofs rl2_select/map/concat/sum/col/ravel/elem, from_ragged_decode + correspondence for column ranges, column sums, argmax",
-         "Row-wise lock-step representation; proved items 1-7 of DESIGN 4.17; column ranges / _col_sum / col_counts / argmax decided by exhaustive-small correspondence "
-         "against the spec (stated, not proved).", "4.17", ""),
- "C18": ("Coq proof obj_select_entries / obj_item_entry (naturality of selectors) + correspondence on run-time generated dataclasses",
-         "Applying one selector to every field equals selecting entries of the table; VarLenArray concatenation right-aligns.", "4.18", ""),
- "C19": ("Coq proof index_rows_width_independent / excl_prefix_in32 + the C02/C06 case sets run under both index widths and compared",
-         "Packed 64-bit gather of (start,length) pairs equals gathering the pairs when entries fit 31 bits; implementation compared with itself across configurations.", "4.19", ""),
+         "ufunc2_correct: ufunc(ra, scalar / (n,1) column / equal-shape ragged) is the row-wise map2 for any element operation; mismatching shapes refused. "
+         "Result dtype and element operation are numpy's own applied to row i alone (the property's wording); 22 binary, 8 unary ufuncs, operators, both sides, views and ufunc results as operands, two ufuncs in a row.", "4.4, 10.3", ""),
+ "C05": ("Coq proof of reduce_correct (law-free folds), argmax_correct/argmin_correct + correspondence incl. reduce-mutate-reduce sequences",
+         "reduce_correct: reduceat + identity patch-up equals the per-row left fold with the identity on empty rows for every placement of empty rows; argmax/argmin pipeline. "
+         "Correspondence only: keepdims / axis=None / mean wrappers, result dtypes, arrays unchanged by reductions.", "4.5, 10.3", ""),
+ "C06": ("Coq proof of chain_correct (selection chains of any depth on lazy views), indistinguishable_read, and assign_leaves_older_arrays_unchanged (heap machine) + correspondence on programs",
+         "Every lazily derived representation is well formed and denotes the spec's selection; two representations with equal rows are indistinguishable by any index; an assignment never "
+         "changes an older array in any reachable heap. ~75 observations, observation sequences and 18 assignments on derived arrays against fresh equal arrays.", "4.6, 10.3", ""),
+ "C07": ("Coq proofs cumsum_correct, accumulate_correct, diff_correct, sort_correct, unique_correct + correspondence incl. scan-mutate-scan sequences",
+         "Each scan/reordering equals the per-row numpy definition for every placement of empty rows; cumsum/accumulate over abstract groups (integer wrap-around inside the theorem); "
+         "float accumulate through the padded matrix compared bit-exactly with numpy per row.", "4.7, 10.3", ""),
+ "C08": ("Coq proofs concat0/concat1/like/where/where_scalar/subset/ragged_slice/nonzero/padded_correct + correspondence",
+         "Structural functions are polymorphic list functions; theorems state row-structure preservation. Correspondence only: ragged_slice of 1-D/2-D inputs, NPSArray[starts:ends], empty_like, dtype pairs of where.", "4.8, 10.3", ""),
+ "C09": ("Coq proofs colsum_correct, col_counts_correct, get_column_values_correct + correspondence incl. integers beyond 2^53 and float32 precision cases",
+         "Column sums count every row that reaches the column once; col_counts is the suffix count of lengths; get_column_values lists the j-th elements in row order. Correspondence only: the one division of mean, dtype branches.", "4.9, 10.3", ""),
+ "C10": ("Coq proof of run_sim / C10_partial_concrete (heap-with-lazy-views machine refines value semantics on safe histories, concrete selector grammar, sound boolean guard) + C10_refuted witness + correspondence on history pairs",
+         "The full statement is false of the faithful model (C10_refuted, reproduced on the real code: known finding K1); C10_partial_concrete proves it for histories in which no "
+         "write hits a buffer another array still names. History pairs with/without an inserted read (20 read kinds that return their own results) are run on the implementation and on the model.", "4.10, 10.3", ""),
+ "C11": ("Coq proof table_is_dictionary (refinement of the bucket table to an association list over every history) + hash kernel tie + correspondence on histories (oracle and dict-model families)",
+         "Invariant established by the constructor for every duplicate-free key set and modulus, preserved by assignment; lookups equal the dictionary's; absent keys refused. "
+         "Correspondence only: key dtypes other than int64, float values, like-functions, +, ==, items/to_dict, HashSet.", "4.11, 10.3", ""),
+ "C12": ("Coq proof count_correct / count_history / split-and-order invariance, fast_indices_correct + correspondence on batch histories",
+         "After any sequence of batches every key reports initial + occurrences in the concatenation; non-keys contribute nothing; the fast index builder equals the general one.", "4.12, 10.3", ""),
+ "C13": ("Coq proof unpack_pack, get_correct, getlist_correct, sliding_window_correct over Z with explicit mod 2^64 + correspondence",
+         "Registers as base-2^b digit strings; windows across register boundaries via the two-register shift lemma; any length.", "4.13, 10.3", ""),
+ "C14": ("Coq proof to_array_from_array, from_array_canonical, decode_from_array_R (float PER), canonical-form theorems of slicing / stepping / binary ufuncs / concatenation + dtype-wide correspondence incl. NaN/-0.0",
+         "The code's decoder inverts its encoder for every non-empty array; boundaries canonical; no equal neighbours where promised. Canonical form is checked on every RunLengthArray the library returns.", "4.14, 10.3", ""),
+ "C15": ("Coq proof get_slice_correct (every slice, every bound), get_position(s)_correct, get_bool_mask_correct, rl_windows_decode, rl_getitem_rlmask_correct + correspondence",
+         "Run-length slicing decodes to Python's dense[a:b:c] for all bounds and steps; integer / list / mask / run-length-mask / window indexing equal the dense indexing.", "4.15, 10.3", ""),
+ "C16": ("Coq proof apply_binary_correct (arbitrary unrelated boundaries), rl_map/sum/any/all/max/mean/hist/concat_correct + dtype-wide correspondence",
+         "Merged-boundary binary ufunc decodes to map2 of the dense arrays and has no equal neighbours; reductions on run values equal reductions of the decoded array.", "4.16, 10.3", ""),
+ "C17": ("Coq proofs from_ragged_decode, from_matrix_decode, rl2_select/map/concat/sum/max_argmax/col/ravel/elem + correspondence (model and dense numpy) for column ranges, column sums, counts",
+         "Row-wise lock-step representation. Column ranges / _col_sum / col_counts / any(axis=0) / from_intervals are modelled (Model/RLE2d.v) and decided by correspondence with the model and with numpy on the dense data (stated, not proved).", "4.17, 10.3", ""),
+ "C18": ("Coq proof obj_select_entries / obj_item_entry / obj_concat_entries / obj_eqb_iff / varlen_rows + correspondence on run-time generated dataclasses",
+         "Applying one selector to every field equals selecting entries of the table; concatenation concatenates the tables; VarLenArray concatenation right-aligns. Correspondence only: astype, iteration.", "4.18, 10.3", ""),
+ "C19": ("Coq proof index_rows_width_independent, shape_codes_width_independent, geometry_additions_width_independent + all C01-C09 case sets run under both index widths (separate processes and in-process switch)",
+         "Packed 64-bit gather of (start,length) pairs equals gathering the pairs when entries fit 31 bits; the int32 geometry arithmetic equals the unbounded one for arrays that fit; "
+         "the implementation is compared with itself across configurations.", "4.19, 10.3", ""),
 }
 
 def main():
